@@ -14,6 +14,7 @@ import RxModel.Props.C05
 import RxModel.Props.C06
 import RxModel.Props.Findings
 import RxModel.Props.Clean
+import RxModel.Spec.Enum2
 import RxModel.Props.C11b
 import RxModel.Proofs.PreLemmas
 import Std.Data.HashMap
@@ -188,6 +189,7 @@ def wfReport (pr : Prog) (len : Nat) : String :=
   s!"facts={b facts},br={b (!hasBackref pr.op || pr.hasBackrefs)},prewf={b (pr.pres.all (fun q => wfOp q.op))}," ++
   -- the fragment of the full-strength theorems (Props/Clean, SearchComplete), their extra hypothesis, and the class
   -- hypothesis of the case-invariance theorems (Props/C11b; alphabet = everything but U+0130)
+  s!"clean2={b (cleanProg2 envFast pr.caseBlind pr.multiLine pr.op && clsCanonB pr.op && !pr.hasBackrefs)}," ++
   s!"clean={b (cleanOp pr.op && !pr.hasBackrefs)},nea={b (C08.noEmptyAtoms pr.op)},cicl={b (!pr.caseBlind || C11b.allClsB (C11b.clsClosedOnB (fun c => c != 304)) pr.op)}"
 
 def runApi (pr : Prog) (api : String) (input repl : List Nat) (limit : Nat) : String :=
